@@ -472,11 +472,13 @@ def run(check, tier, seed, examples=None, shards=None, verbose=True):
             errors.append(f"probe {e['id']} raised internal error {ex!r}")
 
     known_cases = 0
+    known_by_id = {}
     violations = 0
     for sig, f in sorted(total.failures.items()):
         m = match_known(check, known, sig, f["case"], f["message"])
         if m is not None:
             known_cases += f["count"]
+            known_by_id[m["id"]] = known_by_id.get(m["id"], 0) + f["count"]
             continue
         violations += 1
         case_enc, msg = f["case"], f["message"]
@@ -497,6 +499,8 @@ def run(check, tier, seed, examples=None, shards=None, verbose=True):
 
     wall = time.time() - t0
     if total.evaluations > 0:
+        if known_by_id:
+            extras["known_finding_buckets"] = known_by_id
         write_evidence(check, tier, seed, total, wall, violations, extras, known_cases, n_shards)
     for line in out:
         print(line)
